@@ -42,9 +42,13 @@ func (prop) Assumptions() []string {
 }
 
 type params struct {
-	Mode string `json:"mode"` // direct | e2e
-	Off  int    `json:"off"`
+	Mode  string `json:"mode"` // direct | e2e
+	Off   int    `json:"off"`
+	Trace bool   `json:"trace,omitempty"` // the child runs under strace; sessions are delimited by marker calls
 }
+
+// marker paths: a stat of a path that does not exist shows up in the trace and delimits a session
+const markBegin, markEnd = "/c11-mark/begin/", "/c11-mark/end/"
 
 func (prop) Plan(tier string, seed int64) []core.Batch {
 	n, chunks := 800, 8
@@ -58,6 +62,17 @@ func (prop) Plan(tier string, seed int64) []core.Batch {
 	for c := 0; c < chunks; c++ {
 		p, _ := json.Marshal(params{Mode: "e2e", Off: c * per})
 		plan = append(plan, core.Batch{Name: fmt.Sprintf("e2e/%d", c), N: per, Params: p, Timeout: 900})
+	}
+	// the same sessions with every file-system call of the process recorded (strace): an independent monitor
+	// of what the service touches, including reads and stats that leave no trace in replies or in the tree
+	tn, tchunks := 240, 4
+	if tier == "thorough" {
+		tn, tchunks = 2400, 8
+	}
+	for c := 0; c < tchunks; c++ {
+		p, _ := json.Marshal(params{Mode: "e2e", Off: 500000 + c*(tn/tchunks), Trace: true})
+		plan = append(plan, core.Batch{Name: fmt.Sprintf("e2e-traced/%d", c), N: tn / tchunks, Params: p, Timeout: 1500,
+			Strace: "--seccomp-bpf -s 4096 -e trace=%file"})
 	}
 	return plan
 }
@@ -298,6 +313,7 @@ func childE2E(b core.Batch, p params, o *core.Obs) {
 	if to == 0 {
 		to = b.N
 	}
+	o.EmitX("paths", map[string]string{"base": base, "root": root})
 	for k := b.From; k < to; k++ {
 		// reset the tree inside the root
 		os.RemoveAll(root)
@@ -311,6 +327,9 @@ func childE2E(b core.Batch, p params, o *core.Obs) {
 		ob := e2eObs{Start: start, Cmds: cs, Passive: passive}
 		o.Begin(k)
 		before := snap(base, root)
+		if p.Trace {
+			os.Stat(fmt.Sprintf("%s%d", markBegin, k))
+		}
 		cc := srv.L.DialTCP(lab.TCPAddr("127.0.0.1", 21), lab.TCPAddr("203.0.113.11", 10000+k%50000))
 		f := &ftpc{cl: lab.NewClient(cc)}
 		f.read() // banner
@@ -439,6 +458,9 @@ func childE2E(b core.Batch, p params, o *core.Obs) {
 		}
 		f.cl.Close()
 		time.Sleep(5 * time.Millisecond)
+		if p.Trace {
+			os.Stat(fmt.Sprintf("%s%d", markEnd, k))
+		}
 		ob.SnapDiff = diffSnap(before, snap(base, root))
 		// repair the sentinel tree if it was damaged so later sequences are judged on their own
 		if len(ob.SnapDiff) > 0 {
@@ -525,7 +547,129 @@ func (prop) Judge(b core.Batch, recs []core.Rec, exits []core.Exit) []core.Resul
 			out = append(out, core.Result{K: e.LastBegun, Verdict: core.Inconclusive, What: fmt.Sprintf("child died (%s %s)", e.Class, e.Frame)})
 		}
 	}
+	var pp params
+	b.P(&pp)
+	if pp.Trace {
+		out = append(out, judgeTrace(recs, exits)...)
+	}
 	return out
+}
+
+var reCall = regexp.MustCompile(`^\d+\s+(?:<\.\.\. )?([a-z0-9_]+)`)
+var reQuoted = regexp.MustCompile(`"((?:[^"\\]|\\.)*)"`)
+
+// statClass: calls that only look at a name; they are legitimate on the ancestors of the root (path
+// resolution walks them), nowhere else outside it.
+var statClass = map[string]bool{"newfstatat": true, "stat": true, "lstat": true, "statx": true, "readlink": true, "readlinkat": true, "access": true, "faccessat": true, "faccessat2": true}
+
+// judgeTrace is the syscall-level monitor: between the begin and end markers of a session every file-system
+// call of the process whose path lies in the sandbox (the directory that holds the root, its siblings and the
+// sentinels) must name the root or something inside it; the ancestors of the root may be looked at, not more.
+func judgeTrace(recs []core.Rec, exits []core.Exit) []core.Result {
+	var out []core.Result
+	base, root := "", ""
+	obs := map[int]e2eObs{}
+	for _, r := range recs {
+		switch r.T {
+		case "paths":
+			var m map[string]string
+			if r.XInto(&m) == nil {
+				base, root = m["base"], m["root"]
+			}
+		case "e2e":
+			var ob e2eObs
+			if r.XInto(&ob) == nil {
+				obs[r.K] = ob
+			}
+		}
+	}
+	if base == "" {
+		return out
+	}
+	calls, sessions := 0, 0
+	type hit struct {
+		K    int    `json:"k"`
+		Call string `json:"call"`
+		Path string `json:"path"`
+	}
+	var hits []hit
+	for _, e := range exits {
+		f, err := os.Open(filepath.Join(e.WorkDir, "strace.log"))
+		if err != nil {
+			out = append(out, core.Result{K: 0, Verdict: core.Inconclusive, What: "no system call trace: " + err.Error()})
+			continue
+		}
+		sc := bufio.NewScanner(f)
+		sc.Buffer(make([]byte, 1<<20), 16<<20)
+		cur := -1
+		for sc.Scan() {
+			ln := sc.Text()
+			if i := strings.Index(ln, markBegin); i >= 0 {
+				fmt.Sscanf(ln[i+len(markBegin):], "%d", &cur)
+				sessions++
+				continue
+			}
+			if strings.Contains(ln, markEnd) {
+				cur = -1
+				continue
+			}
+			if cur < 0 {
+				continue
+			}
+			m := reCall.FindStringSubmatch(ln)
+			if m == nil {
+				continue
+			}
+			for _, q := range reQuoted.FindAllStringSubmatch(ln, -1) {
+				pth := q[1]
+				if !strings.HasPrefix(pth, "/") {
+					continue
+				}
+				cl := filepath.Clean(pth)
+				if !inside(base, cl) {
+					continue // not in the sandbox: runtime and library files
+				}
+				calls++
+				if inside(root, cl) {
+					continue
+				}
+				if inside(cl, root) && statClass[m[1]] {
+					continue // an ancestor of the root, looked at only
+				}
+				hits = append(hits, hit{cur, m[1], strings.TrimPrefix(cl, base)})
+			}
+		}
+		f.Close()
+	}
+	res := core.Result{K: 0, Verdict: core.Held, Key: fmt.Sprintf("trace|%d|%d", sessions, calls),
+		Sample: map[string]interface{}{"mode": "system call trace", "sessions_delimited": sessions, "file_system_calls_on_sandbox_paths": calls, "calls_outside_root": len(hits)}}
+	if sessions == 0 || calls == 0 {
+		res.Verdict, res.Key = core.Inconclusive, ""
+		res.What = "the trace shows no delimited session or no call on a sandbox path"
+	}
+	out = append(out, res)
+	byCall := map[string][]hit{}
+	for _, h := range hits {
+		byCall[h.Call] = append(byCall[h.Call], h)
+	}
+	for call, hs := range byCall {
+		h := hs[0]
+		var verbs []string
+		for _, c := range obs[h.K].Cmds {
+			verbs = append(verbs, strings.TrimSpace(c.Verb+" "+c.Arg))
+		}
+		out = append(out, core.Result{K: h.K, Verdict: core.Violated, Sig: "C11|e2e|syscall-outside-root|" + call,
+			What:    fmt.Sprintf("%s(%q) during a session (start %s, commands %v): the path is in the sandbox but not inside the root (%d such calls)", call, "<sandbox>"+h.Path, obs[h.K].Start, verbs, len(hs)),
+			Witness: map[string]interface{}{"session": obs[h.K], "calls": hs[:mini(len(hs), 20)]}})
+	}
+	return out
+}
+
+func mini(a, b int) int {
+	if a < b {
+		return a
+	}
+	return b
 }
 
 func (prop) Summarize(all []core.Result, nrec int) map[string]interface{} {
